@@ -146,7 +146,9 @@ def flowsend(log):
             pk.setdefault(e["dg"], []).append(e)
     for e in log:
         k = e["k"]
-        if k == "arr" and e["haskeys"]:
+        if k == "arr" and (e["haskeys"] or e.get("maybe")):
+            # (a packet whose keys were installed by an earlier packet of the same datagram may have been processed:
+            # the limits it carries may have been given to the endpoint - the reading that never blames the sender wrongly)
             for f in pk[e["dg"]][e["idx"]].get("frames", []):
                 if f["t"] == "max_stream_data":
                     out.append({"ev": "lim", "ep": e["ep"], "kind": "stream", "sid": f["sid"], "value": f["max"]})
